@@ -25,6 +25,7 @@ import c13_real as real
 
 PROP = 'C13'
 ALL_OPS = real.ALL_OPS
+X_OPS = real.X_OPS
 _U = None          # Universe of the specification's class table (built once, inherited by forks)
 _RUN = None        # parameters of the TLC run being replayed (ops)
 
@@ -51,7 +52,7 @@ def setsets(xss):
 
 def load_universe(order):
     global _U
-    consts = dict(base_constants(order), PrintUniverse='TRUE', OffChoices='{{}}', Stars='FALSE', MaxReg=0, MaxLook=0, FamNames=strs(['chain']),
+    consts = dict(base_constants(order), PrintUniverse='TRUE', OffChoices='{{}}', Stars='FALSE', XOps='{}', MaxReg=0, MaxLook=0, FamNames=strs(['chain']),
                   RegSets=setsets([['g2']]), Ops=strs(['get']), KwChoices=setsets([['get']]), LookOps=strs(['get']))
     res = vlib.run_tlc('MC_C13', constants=consts, workers=1)
     vlib.tlc_must_pass(res, 'MC_C13 universe')
@@ -59,7 +60,16 @@ def load_universe(order):
     if not docs:
         raise vlib.MachineryError('MC_C13 did not print its class universe')
     doc = docs[0]
-    _U = real.Universe(doc['classes'])
+    classes = {n: dict(c) for n, c in doc['classes'].items()}
+    for n in doc['abstract']:
+        classes[n]['abstract'] = True
+    for n, vs in doc['virt'].items():
+        classes[n]['virt'] = list(vs)
+    for n in doc['quack']:
+        classes[n]['quack'] = True
+    for n, sp in doc['special'].items():
+        classes[n]['special'] = sp
+    _U = real.Universe(classes)
     _U.verify(doc)
     return doc
 
@@ -67,7 +77,8 @@ def load_universe(order):
 # ---- spec -> code ---------------------------------------------------------------------------
 # branches of the machine every tier must have exercised on the real library (vacuity guard)
 BRANCHES = ['glommer_created', 'exact_registration', 'fuzzy_registration', 'memo_hit', 'memo_miss', 'unregistered',
-            'user_handler', 'builtin_handler', 'several_nearest_types', 'wildcard_step']
+            'user_handler', 'builtin_handler', 'several_nearest_types', 'wildcard_step', 'register_op',
+            'registration_from_inside_a_handler', 'falsy_handler_object']
 
 def replay_state(st, ops, out):
     """perform the behaviour of one dumped state on the real library"""
@@ -82,13 +93,20 @@ def replay_state(st, ops, out):
     nlook = nreg = 0
     br = out['branches']
     memo = set()
+    inside = set()        # registrations already made from inside the handler of the preceding lookup
     for idx, a in enumerate(hist, 1):
         if a['a'] == 'new':
             env.new(a['r'])
             br['glommer_created'] += 1
+        elif a['a'] == 'regop':
+            env.register_op(a['r'], a['op'])
+            br['register_op'] += 1
         elif a['a'] == 'reg':
             nreg += 1
-            env.register(a['r'], a['t'], a['ops'], a['exact'], idx, a.get('off', ()))
+            if idx not in inside:
+                env.register(a['r'], a['t'], a['ops'], a['exact'], idx, a.get('off', ()))
+            if idx % 2 == 0 and len(a['ops']) > len(a.get('off', ())):
+                br['falsy_handler_object'] += 1
             memo = {k for k in memo if k[0] != a['r']}
             br['exact_registration' if a['exact'] else 'fuzzy_registration'] += 1
         elif a['a'] == 'star':
@@ -112,12 +130,24 @@ def replay_state(st, ops, out):
             nlook += 1
             key = (a['r'], a['t'], a['op'])
             br['memo_hit' if key in memo else 'memo_miss'] += 1
+            nxt = hist[idx] if idx < len(hist) else None
+            if nxt and nxt['a'] == 'reg' and nxt['r'] == a['r'] and a['h']['n']:
+                # the registration that follows is made by the handler of this lookup while it runs (re-entrant)
+                def inner(nxt=nxt, k=idx + 1):
+                    env.register(nxt['r'], nxt['t'], nxt['ops'], nxt['exact'], k, nxt.get('off', ()))
+                    inside.add(k)
+                    br['registration_from_inside_a_handler'] += 1
+                real.ON_CALL[:] = [inner]
             if a['h']['o'] != 'False':
                 memo.add(key)
             br['unregistered' if a['h']['o'] == 'False' else 'user_handler' if a['h']['n'] else 'builtin_handler'] += 1
             if len(a['allowed']) > 1:
                 br['several_nearest_types'] += 1
             sig = env.observe(a['r'], a['op'], a['t'])
+            del real.ON_CALL[:]
+            if env.pulled:
+                out['drift'].append(dict(what='a generator target was consumed by a lookup that does not iterate',
+                                         fam=st['fam'], hist=hist[:idx]))
             allowed = [u.sig(h, a['op'], a['t']) for h in a['allowed']]
             mech = u.sig(a['h'], a['op'], a['t'])
             out['lookups'] += 1
@@ -184,7 +214,7 @@ def runs_for(tier):
     q = tier == 'quick'
 
     def c(**kw):
-        d = dict(Mutant='""', Dynamic='FALSE', MaxNew=0, ReReg='FALSE', AllOrders='FALSE', PrintUniverse='FALSE', OffChoices='{{}}', Stars='FALSE')
+        d = dict(Mutant='""', Dynamic='FALSE', MaxNew=0, ReReg='FALSE', AllOrders='FALSE', PrintUniverse='FALSE', OffChoices='{{}}', Stars='FALSE', XOps='{}')
         d.update(kw)
         return d
     runs = [
@@ -197,7 +227,7 @@ def runs_for(tier):
                                           MaxReg=2, MaxLook=1,
                                           KwChoices=setsets([['iterate', 'assign', 'delete']] + ([] if q else [['assign']])),
                                           LookOps=strs(['iterate', 'assign', 'delete'])), ['iterate', 'assign', 'delete']),
-        ('mixin order depth 4', c(Ops=strs(['get']), FamNames=strs(['mixin', 'diamond']),
+        ('mixin order depth 4', c(Ops=strs(['get']), FamNames=strs(['mixin'] if q else ['mixin', 'diamond']),
                                   RegSets=setsets([['g2']] if q else [['g2'], ['default']]),
                                   MaxReg=4, MaxLook=1, KwChoices=setsets([['get']]), LookOps=strs(['get'])), ['get']),
         # Glommers created before / after registrations on the other registries; 'assign' stands for the operations a
@@ -217,6 +247,14 @@ def runs_for(tier):
            MaxReg=2, MaxLook=1, KwChoices=setsets([['iterate'], ['get']]), OffChoices='{{}}' if q else '{{}, {"iterate"}}',
            LookOps=strs(['iterate'] if q else ['get', 'iterate'])), ['get', 'iterate']),
     ]
+    # ABCs with virtual subclasses (abc.register; a class that is a virtual subclass of two registered ABCs), a duck type
+    # whose metaclass overrides __instancecheck__; register_op with / without an autodiscovery function on a bare Glommer
+    runs += [('virtual subclasses and duck types', c(Ops=strs(['get']), FamNames=strs(['abcs', 'quack']), RegSets=setsets(each),
+                                                     MaxReg=2 if q else 3, MaxLook=1, KwChoices=setsets([['get']]), LookOps=strs(['get'])),
+              ['get']),
+             ('register_op', c(Ops=strs(['get', 'cauto', 'cplain']), FamNames=strs(['chain']), RegSets=setsets([['g2']]),
+                               XOps=strs(['cauto', 'cplain']), MaxReg=1 if q else 2, MaxLook=1, KwChoices=setsets([['get'], ['get', 'cauto']]),
+                               LookOps=strs(['get', 'cauto', 'cplain'])), ['get', 'cauto', 'cplain'])]
     # wildcard steps ('*' / every level of '**'): keys + get, else iterate, for the nearest registered type -- also for the
     # builtin containers themselves when they are re-registered or not registered at all (bare Glommer)
     runs += [('wildcard steps', c(Ops=strs(['get', 'keys', 'iterate']), FamNames=strs(['star']), RegSets=setsets(each), Stars='TRUE',
@@ -255,7 +293,7 @@ def runs_for(tier):
 # ---- spec mutants: TLC must report the named law violated ------------------------------------------
 def mutant_runs():
     def c(**kw):
-        d = dict(Dynamic='FALSE', MaxNew=0, ReReg='FALSE', AllOrders='FALSE', PrintUniverse='FALSE', OffChoices='{{}}', Stars='FALSE',
+        d = dict(Dynamic='FALSE', MaxNew=0, ReReg='FALSE', AllOrders='FALSE', PrintUniverse='FALSE', OffChoices='{{}}', Stars='FALSE', XOps='{}',
                  Ops=strs(['get', 'keys']), FamNames=strs(['chain']), RegSets=setsets([['g2']]), MaxReg=2, MaxLook=2,
                  KwChoices=setsets([['get', 'keys'], ['get']]), LookOps=strs(['get', 'keys']))
         d.update(kw)
@@ -297,12 +335,19 @@ def mutant_runs():
 
 # ---- code -> spec: random class families, random histories -----------------------------------
 def random_universe(rng, n):
-    """random class table: single / multiple inheritance, builtin roots, __slots__, __iter__"""
+    """random class table: single / multiple inheritance, builtin roots, __slots__, __iter__, two ABCs that classes are
+    registered with (virtual subclasses, possibly of both), a duck type by metaclass __instancecheck__, a namedtuple
+    class, leaf classes that are rebuilt for every instance (eph: types created and destroyed between operations)"""
     classes = {'object': dict(bases=[], dict=False, iter=False, kind='obj'),
                'dict': dict(bases=['object'], dict=False, iter=True, kind='map'),
                'list': dict(bases=['object'], dict=False, iter=True, kind='seq'),
                'tuple': dict(bases=['object'], dict=False, iter=True, kind='tuple'),
-               'OrderedDict': dict(bases=['dict'], dict=True, iter=False, kind='obj')}
+               'OrderedDict': dict(bases=['dict'], dict=True, iter=False, kind='obj'),
+               'generator': dict(bases=['object'], dict=False, iter=True, kind='obj', special='generator'),
+               'RA0': dict(bases=['object'], dict=True, iter=False, kind='obj', special='abc', abstract=True),
+               'RA1': dict(bases=['object'], dict=True, iter=False, kind='obj', special='abc', abstract=True),
+               'RQ': dict(bases=['object'], dict=True, iter=False, kind='obj', special='instancecheck', abstract=True),
+               'RN': dict(bases=['tuple'], dict=False, iter=False, kind='obj', special='namedtuple')}
     names = []
     while len(names) < n:
         name = 'R%d' % len(names)
@@ -313,6 +358,11 @@ def random_universe(rng, n):
             if b not in bases:
                 bases.append(b)
         cand = dict(bases=bases, dict=rng.random() > 0.2, iter=rng.random() < 0.2, kind='obj')
+        virt = [v for v in ('RA0', 'RA1') if rng.random() < 0.15]
+        if virt:
+            cand['virt'] = virt
+        if rng.random() < 0.15:
+            cand['quack'] = True
         trial = dict(classes)
         trial[name] = cand
         try:
@@ -321,23 +371,55 @@ def random_universe(rng, n):
             continue                       # MRO / layout conflict: Python cannot build it
         classes[name] = cand
         names.append(name)
-    return classes, names
+    used = {b for nme in names for b in classes[nme]['bases']}
+    eph = []
+    for nme in names:
+        if nme not in used and rng.random() < 0.4:
+            classes[nme]['eph'] = True
+            eph.append(nme)
+    return classes, names, eph
 
 
 def new_event(env, r):
-    p = env.project(r, ALL_OPS)
+    p = env.project(r, ALL_OPS + X_OPS)
     return dict(a='new', r=r, mech='tree' in p, tree=p.get('tree', []))
 
 
-def record_behaviour(u, names, rng):
+def record_behaviour(u, names, eph, rng):
     """one random history on the real library -> row {regs, events}"""
     env = real.Env(u)
     regs = rng.choice([['default'], ['g1'], ['g2'], ['default', 'g1'], ['default', 'g2'], ['default', 'g1', 'g2']])
-    fam = rng.sample(names, min(len(names), rng.randint(3, 6)))
-    related = [n for n in names if any(issubclass(u.real[n], u.real[f]) for f in fam)]
-    objs = related + ['dict', 'list', 'tuple', 'OrderedDict', 'object']
+    stable = [n for n in names if n not in eph]                       # ephemeral classes are only ever looked up
+    fam = rng.sample(stable, min(len(stable), rng.randint(3, 6))) + [a for a in ('RA0', 'RA1', 'RQ') if rng.random() < 0.3]
+    related = [n for n in names if any(issubclass(u.real[n], u.real[f]) or isinstance(u.make(n), u.real[f]) for f in fam)]
+    objs = related + ['dict', 'list', 'tuple', 'OrderedDict', 'object', 'generator', 'RN']
     events = []
     last = None
+    default_types = ['object', 'dict', 'list', 'tuple', 'OrderedDict', '_AbstractIterable', '_ObjStyleKeys']
+    known = {'default': list(default_types), 'g1': list(default_types), 'g2': []}     # first-registration order
+    had_exact = set()
+    xops = {r: [] for r in regs}
+
+    def reg_event(r, t, ops, exact, off, n, inside=False):
+        if not inside:
+            env.register(r, t, ops, exact, n, off)
+        if t not in known[r]:
+            known[r].append(t)
+        if exact:
+            had_exact.add(r)
+        p = env.project(r, ALL_OPS + X_OPS)
+        mech = 'tree' in p and 'map' in p
+        events.append(dict(a='reg', r=r, t=t, ops=ops, exact=exact, off=off, mech=mech,
+                           tree=p['tree'] if mech else [], map=p['map'] if mech else []))
+
+    def reg_plan(r):
+        t = rng.choice(fam) if rng.random() < 0.93 else rng.choice(['object', 'dict', 'list'])
+        if last and last[0] == r and last[1] in stable and rng.random() < 0.35:
+            t = last[1]                  # the type just looked up gets its own registration
+        ops = [op for op in ALL_OPS + xops[r] if rng.random() < 0.4]
+        off = [op for op in ops if rng.random() < 0.12]          # op=False: "not supported"
+        return t, ops, rng.random() < 0.3, off
+
     for r in regs:
         if r != 'default' and rng.random() < 0.5:
             env.new(r)
@@ -349,31 +431,44 @@ def record_behaviour(u, names, rng):
             env.new(r)
             events.append(new_event(env, r))
             continue
-        if rng.random() < 0.5:
-            t = rng.choice(fam) if rng.random() < 0.93 else rng.choice(['object', 'dict', 'list'])
-            if last and last[0] == r and last[1] in names and rng.random() < 0.35:
-                t = last[1]                  # the type just looked up gets its own registration
-            ops = [op for op in ALL_OPS if rng.random() < 0.4]
-            off = [op for op in ops if rng.random() < 0.12]          # op=False: "not supported"
-            exact = rng.random() < 0.3
-            env.register(r, t, ops, exact, n, off)
-            p = env.project(r, ALL_OPS)
+        x = rng.random()
+        if x < 0.08 and r != 'default' and r not in had_exact and len(xops[r]) < 2:
+            # an extension adds an operation to this Glommer's registry (with / without autodiscovery); the types known
+            # to the registry are autodiscovered in name order and enter the tree in the iteration order of a set
+            op = rng.choice([o for o in X_OPS if o not in xops[r]])
+            env.register_op(r, op)
+            xops[r].append(op)
+            kt = [u.real[t] for t in known[r]]
+            p = env.project(r, ALL_OPS + X_OPS)
             mech = 'tree' in p and 'map' in p
-            events.append(dict(a='reg', r=r, t=t, ops=ops, exact=exact, off=off, mech=mech,
+            events.append(dict(a='regop', r=r, op=op, byname=[c.__name__ for c in sorted(set(kt), key=lambda c: c.__name__)],
+                               order=[c.__name__ for c in set(kt)], mech=mech,
                                tree=p['tree'] if mech else [], map=p['map'] if mech else []))
+        elif x < 0.5:
+            t, ops, exact, off = reg_plan(r)
+            reg_event(r, t, ops, exact, off, n)
         else:
             t = rng.choice(objs)
-            op = rng.choice(ALL_OPS)
-            if last and last[0] == r and rng.random() < 0.35:
+            op = rng.choice(ALL_OPS + xops[r])
+            if last and last[0] == r and (last[2] in ALL_OPS or last[2] in xops[r]) and rng.random() < 0.35:
                 t, op = last[1], last[2]     # the same lookup again (memo / effect of a registration in between)
             last = (r, t, op)
+            fired = []
+            plan = None
+            if rng.random() < 0.25:
+                # if a user handler runs for this lookup, it makes a registration on the same registry while it runs
+                plan = reg_plan(r)
+                real.ON_CALL[:] = [lambda: (env.register(r, plan[0], plan[1], plan[2], n + 1, plan[3]), fired.append(1))]
             sig = env.observe(r, op, t)
+            del real.ON_CALL[:]
             # an effect no handler of this operation can have (e.g. a handler of another operation ran)
             # is recorded as such and rejected by the specification
+            cached = None if fired else env.cached(r, op, t)     # (before anything rebuilds an ephemeral class)
             obs = u.consistent_tags(sig, op, t) or [{'o': 'unexpected effect', 'n': 0}]
-            cached = env.cached(r, op, t)
             events.append(dict(a='look', r=r, t=t, op=op, obs=obs, memo=cached is not None,
                                cached=cached if cached is not None else dict(real.FALSE_H)))
+            if fired:
+                reg_event(r, plan[0], plan[1], plan[2], plan[3], n + 1, inside=True)
     return dict(regs=regs, events=events)
 
 
@@ -382,18 +477,18 @@ def record_file(args):
     seed, nclasses, nbeh = args
     rng = random.Random(seed)
     real.UNOBSERVABLE.clear()
-    classes, names = random_universe(rng, nclasses)
+    classes, names, eph = random_universe(rng, nclasses)
     u = real.Universe(classes)
     tabs = u.observed_tables()
     real.restore_default_registry()
     env = real.Env(u)
-    p = env.project('default', ALL_OPS)
+    p = env.project('default', ALL_OPS + X_OPS)
     head = dict(kind='universe', classes=classes, sub=tabs['sub'], inst=tabs['inst'], auto=tabs['auto'], mro=tabs['mro'],
                 known_order=real.known_order(), mech='tree' in p, init=p.get('tree', []), events=[], regs=['default'])
     rows = [head]
     try:
         for _ in range(nbeh):
-            rows.append(record_behaviour(u, names, rng))
+            rows.append(record_behaviour(u, names, eph, rng))
     finally:
         real.restore_default_registry()
     head['unobservable'] = dict(real.UNOBSERVABLE)
@@ -564,7 +659,7 @@ def main(tier, seed):
             if muts:
                 check.extra['spec_mutants_detected'] = killed
                 check.extra['corrupted_row_rejected'] = selftest_corrupted_row(seed)
-        nf, nc, nb = {'quick': (8, 14, 150), 'thorough': (32, 18, 600)}[tier]
+        nf, nc, nb = {'quick': (8, 14, 150), 'thorough': (32, 18, 300)}[tier]
         check.extra['recorded_behaviours'] = record(check, nf, nc, nb, seed, pool)
     finally:
         pool.terminate()
